@@ -222,9 +222,12 @@ def fl(x):
 
 # ============================================================================ running the real finder
 
-def run_finder(m, pts):
-    """pts: list of Fraction tuples -> ('ok', cells) | ('raises', text)"""
+def run_finder(m, pts, dtype=None):
+    """pts: list of Fraction tuples -> ('ok', cells) | ('raises', text); dtype: hand the points over as an integer array"""
     arr = np.array([fl(x) for x in pts]).T
+    if dtype is not None:
+        assert np.all(arr == np.round(arr))
+        arr = arr.astype(dtype)
     try:
         r = m.element_finder()(*arr)
         return 'ok', [int(c) for c in np.asarray(r).ravel()]
@@ -366,7 +369,15 @@ def tensor_mesh(rng, kind, shear=True, graded=False, nonconvex=False):
 
 def line_mesh(rng, n):
     import skfem
-    xs = sorted(rng.sample(range(0, 30), n))
+    # half-integer vertex coordinates of either sign; the right end point is an integer, so that integer typed query
+    # arrays can hit it (its replacement, the middle of the last cell, is then NOT an integer)
+    while True:
+        xs = sorted(rng.sample(range(-24, 41), n))
+        if xs[-1] % 2 == 0:
+            if rng.random() < 0.5 and (n < 3 or xs[-3] < xs[-1] - 1):
+                xs[-2] = xs[-1] - 1            # a last cell of length 1/2: its middle truncates to a point outside it
+            break
+    xs = [v / 2.0 for v in xs]
     perm = list(range(n))
     rng.shuffle(perm)
     p = np.zeros((1, n))
@@ -464,7 +475,13 @@ def correspond(ctx, facts, batch):
                 xs.append(Fr(rng.randrange(int(ps[0]) * 4, int(ps[-1]) * 4 + 1), 4))
             else:
                 xs.append(rng.choice([ps[0] - Fr(1, 2), ps[-1] + Fr(1, 2), ps[0] - 3, ps[-1] + 2]))
-        r = run_finder(m, [(x,) for x in xs])
+        dt = None
+        if rng.random() < 0.4:
+            # integer typed query points (including the right end point and vertices)
+            xs = [Fr(round(float(v))) if ps[0] <= round(float(v)) <= ps[-1] else Fr(int(ps[-1])) for v in xs]
+            dt = rng.choice([np.int64, np.int32])
+        r = run_finder(m, [(x,) for x in xs], dtype=dt)
+        ctx.hist('corr_line_dtype', 'float64' if dt is None else dt.__name__)
         cases.append((f'({clist([cq(v) for v in ps])}, {clist([cnat(v) for v in ix])}, {clist([cnat(v) for v in maxt])}, '
                       f'{clist([cq(v) for v in xs])})', enc_res(r), ('line', len(ps), len(xs), r[0])))
         ctx.hist('corr_line_result', r[0])
@@ -490,26 +507,56 @@ def correspond(ctx, facts, batch):
                 pool = [x for _, x in mesh_points(m, rng, kinds=('interior',), per_kind=6)]
                 pts = [rng.choice(pool) for _ in range(rng.randrange(1, 6))]      # repetitions allowed
                 x = np.array([fl(p) for p in pts]).T
+                nelems = m.t.shape[1]
+                tind = None
+                if rng.random() < 0.5 and nelems >= 2:
+                    # a basis restricted to a subset of the cells (given in arbitrary order)
+                    cells_all = [int(c) for c in m.element_finder()(*x)]
+                    sub = sorted(set(cells_all) | set(rng.sample(range(nelems), max(1, nelems // 3))))
+                    if rng.random() < 0.3 and len(set(cells_all)) >= 2:
+                        sub = [c for c in sub if c != cells_all[0]] or sub     # one query point falls outside the subset
+                    rng.shuffle(sub)
+                    bs = skfem.Basis(m, e, elements=np.array(sub))
+                    tind = [int(c) for c in bs.tind]
                 try:
                     cells = [int(c) for c in m.element_finder(mapping=bs.mapping)(*x)]
+                    if tind is not None and not set(cells) <= set(tind):
+                        try:
+                            bs.probes(x)
+                            got_none = False
+                        except ValueError:
+                            got_none = True
+                        edofs = clist([clist([cnat(v) for v in row]) for row in bs.element_dofs])
+                        inp = (f'({edofs}, {clist([cnat(c) for c in cells])}, {cnat(comp)}, ({cnat(nelems)}, '
+                               f'(Some {clist([cnat(c) for c in tind])}), {cnat(bs.N)}))')
+                        cases.append((inp, 'None' if got_none else '(Some ([], [], (0%nat, 0%nat)))', ('probes-restricted-outside', ename, len(pts), comp, bs.Nbfun)))
+                        continue
                     Pm = bs.probes(x)
                 except Exception as ex:      # noqa: BLE001 - interior points of a valid mesh: an exception is a failing input
                     ctx.fail(f'probes:{ename}:{type(m).__name__}:exception', f'probes / finder raised {type(ex).__name__}: {ex} on interior points',
                              {'element': ename, 'mesh_class': type(m).__name__, 'p': m.p.tolist(), 't': m.t.tolist(), 'points': x.tolist(), 'site': 'probes'})
                     continue
                 edofs = clist([clist([cnat(v) for v in row]) for row in bs.element_dofs])
-                inp = f'({edofs}, {clist([cnat(c) for c in cells])}, {cnat(comp)})'
-                outp = f'({clist([cnat(v) for v in Pm.row])}, {clist([cnat(v) for v in Pm.col])}, ({cnat(Pm.shape[0])}, {cnat(Pm.shape[1])}))'
-                cases.append((inp, outp, ('probes', ename, len(pts), comp, bs.Nbfun)))
+                tenc = 'None' if tind is None else f'(Some {clist([cnat(c) for c in tind])})'
+                inp = f'({edofs}, {clist([cnat(c) for c in cells])}, {cnat(comp)}, ({cnat(nelems)}, {tenc}, {cnat(bs.N)}))'
+                outp = f'(Some ({clist([cnat(v) for v in Pm.row])}, {clist([cnat(v) for v in Pm.col])}, ({cnat(Pm.shape[0])}, {cnat(Pm.shape[1])})))'
+                cases.append((inp, outp, ('probes' if tind is None else 'probes-restricted', ename, len(pts), comp, bs.Nbfun)))
+                ctx.hist('corr_probes_basis', 'restricted' if tind is not None else 'whole mesh')
                 if comp != int(np.prod(bs._base_tensor_order)):
                     ctx.broke('correspondence', 'probes:harness-comp', f'{ename}: expected {comp} components')
-        defs = ('Definition run_probes (a : list (list nat) * list nat * nat) :=\n'
-                '  let \'(edofs, cells, comp) := a in\n'
-                '  (gen_probe_rows (length edofs) comp (length cells), gen_probe_cols edofs cells comp,\n'
-                '   gen_probe_shape comp (length cells) (S (fold_right Nat.max 0%nat (concat edofs)))).\n'
-                'Definition pr_eqb (u v : list nat * list nat * (nat * nat)) :=\n'
-                '  let \'(r1, c1, (a1, b1)) := u in let \'(r2, c2, (a2, b2)) := v in\n'
-                '  nats_eqb r1 r2 && nats_eqb c1 c2 && Nat.eqb a1 a2 && Nat.eqb b1 b2.\n')
+        defs = ('Definition run_probes (a : list (list nat) * list nat * nat * (nat * option (list nat) * nat)) :=\n'
+                '  let \'(edofs, cells, comp, (nelems, tind, N)) := a in\n'
+                '  match gen_probe_restrict nelems tind cells with\n'
+                '  | None => None\n'
+                '  | Some cells1 => Some (gen_probe_rows (length edofs) comp (length cells), gen_probe_cols edofs cells1 comp,\n'
+                '                         gen_probe_shape comp (length cells) N)\n'
+                '  end.\n'
+                'Definition pr_eqb (u v : option (list nat * list nat * (nat * nat))) :=\n'
+                '  match u, v with\n'
+                '  | None, None => true\n'
+                '  | Some (r1, c1, (a1, b1)), Some (r2, c2, (a2, b2)) => nats_eqb r1 r2 && nats_eqb c1 c2 && Nat.eqb a1 a2 && Nat.eqb b1 b2\n'
+                '  | _, _ => false\n'
+                '  end.\n')
         batch.add('probes_indices', 'From Coq Require Import List Arith QArith Bool.\nRequire Import Model.C14_Finder Gen.C14GenProbes.\n',
                   'run_probes', 'pr_eqb', cases, defs=defs, nontrivial=lambda r: r[2] >= 2)
         ctx.sample({'kind': 'probes indices', 'element': cases[2][2][1], 'npts': cases[2][2][2], 'impl(rows, cols, shape)': cases[2][1][:300]})
@@ -974,6 +1021,102 @@ def search_probes_general(ctx):
     ctx.extra['probes_general_search'] = {'configurations': n, 'max_relative_discrepancy': worst, 'tolerance': 1e-9}
 
 
+# ============================================================================ search(): restricted bases, trailing axes, integer queries
+
+def search_probes_restricted(ctx):
+    """(a) probes / interpolator / point_source of a CellBasis restricted to a subset of the cells (elements=...) equal those
+    of the basis on the whole mesh (same coefficient vector) at points of the subset, and fail for a point outside it;
+    (b) interpolator(y)(x) for query arrays with trailing axes keeps the component axes: shape = tensor order + x.shape[1:];
+    (c) the 1-D finder gives the same cells for integer-typed and float-typed query arrays"""
+    import skfem
+    rng = ctx.rng
+    n = 0
+    cfgs = [('tri', 'ElementTriP2'), ('tri', 'ElementVector:ElementTriP1'), ('tri', 'ElementTriRT1'), ('quad', 'ElementQuad2'),
+            ('quad', 'ElementVector:ElementQuad1'), ('tet', 'ElementTetP1'), ('tet', 'ElementVector:ElementTetP1'),
+            ('hex', 'ElementHex1'), ('line', 'ElementLineP2'), ('tri', 'ElementVector:ElementVector:ElementTriP1'), ('wedge', 'ElementWedge1')]
+    for fam, ename in cfgs:
+        for rep in range(ctx.n(1, 3)):
+            m = line_mesh(rng, 7) if fam == 'line' else tensor_mesh(rng, fam, shear=(rep % 2 == 0))
+            nt = m.t.shape[1]
+            full = skfem.Basis(m, make_elem(ename))
+            pool = [x for _, x in mesh_points(m, rng, kinds=('interior',), per_kind=10)]
+            pts = [rng.choice(pool) for _ in range(rng.randrange(2, 7))]
+            x = np.array([fl(p) for p in pts]).T
+            cells = [int(c) for c in m.element_finder()(*x)]
+            sub = sorted(set(cells) | set(rng.sample(range(nt), max(1, nt // 3))))
+            rng.shuffle(sub)
+            y = np.cos(1.0 + 0.37 * np.arange(full.N))
+            key = f'{ename}:{type(m).__name__}'
+            data = {'element': ename, 'mesh_class': type(m).__name__, 'p': m.p.tolist(), 't': m.t.tolist(), 'points': x.tolist(),
+                    'elements': sub, 'site': 'probes-restricted'}
+            tord = tuple(full._base_tensor_order)
+            ref = (full.probes(x) @ y).reshape(tord + (x.shape[1],))
+            scale = 1.0 + float(np.max(np.abs(ref)))
+            n += 1
+            ctx.count(('probes-restricted', key, x.tobytes(), tuple(sub)), nontrivial=len(sub) < nt)
+            try:
+                bs = skfem.Basis(m, make_elem(ename), elements=np.array(sub))
+                got = (bs.probes(x) @ y).reshape(tord + (x.shape[1],))
+                itp = np.asarray(bs.interpolator(y)(x))
+                ps = float(bs.point_source(x[:, 0]) @ y)
+            except Exception as ex:      # noqa: BLE001 - all points lie in cells of the subset
+                ctx.fail(f'probes:restricted-basis:{key}:exception', f'probes of a basis restricted to elements={sub} raised '
+                         f'{type(ex).__name__}: {ex} for points inside these elements', data)
+                continue
+            d1 = max(float(np.max(np.abs(got - ref))), float(np.max(np.abs(itp.reshape(ref.shape) - ref)))) / scale
+            if d1 > 1e-11:
+                ctx.fail(f'probes:restricted-basis:{key}:value', f'probes / interpolator of a basis restricted to elements={sub} differ from '
+                         f'the basis on the whole mesh by {d1:.2e} (same coefficients, points inside the subset)', dict(data, diff=d1))
+            if abs(ps - float(ref[(0,) * len(tord) + (0,)])) / scale > 1e-11:
+                ctx.fail(f'point_source:restricted-basis:{key}', 'point_source of a restricted basis differs from the basis on the whole mesh', data)
+            # a point in a cell that is NOT in the subset must be rejected, not evaluated with another cell's dofs
+            outside = [c for c in range(nt) if c not in sub]
+            if outside:
+                xo = np.array([[float(v)] for v in mesh_points(m, rng, kinds=('interior',), per_kind=1)[0][1]])
+                co = int(m.element_finder()(*xo)[0])
+                if co not in sub:
+                    try:
+                        bs.probes(xo)
+                        ctx.fail(f'probes:restricted-basis:{key}:outside-subset-accepted',
+                                 f'a point of cell {co} (not among elements={sub}) is evaluated by the restricted basis instead of being rejected',
+                                 dict(data, point=xo.ravel().tolist()))
+                    except (ValueError, IndexError):
+                        pass
+            # (b) trailing axes
+            if x.shape[1] >= 4:
+                x3 = x[:, :4].reshape(x.shape[0], 2, 2)
+                for b_, nm in ((full, 'whole'), (bs, 'restricted')):
+                    try:
+                        v3 = np.asarray(b_.interpolator(y)(x3))
+                    except Exception as ex:      # noqa: BLE001
+                        ctx.fail(f'interpolator:trailing-axes:{key}:exception', f'interpolator(y)(x) with x.shape={x3.shape} raised {type(ex).__name__}: {ex}',
+                                 dict(data, x_shape=list(x3.shape)))
+                        break
+                    want = ref[..., :4].reshape(tord + (2, 2))
+                    if v3.shape != want.shape or float(np.max(np.abs(v3 - want))) / scale > 1e-11:
+                        ctx.fail(f'interpolator:trailing-axes:{key}', f'interpolator(y)(x) with x.shape={x3.shape} returns shape {v3.shape}, expected '
+                                 f'{want.shape} = tensor order + x.shape[1:] (or wrong values) [{nm} basis]', dict(data, x_shape=list(x3.shape)))
+                        break
+    # (c) integer typed queries of the 1-D finder
+    for _ in range(ctx.n(10, 40)):
+        m = line_mesh(rng, rng.randrange(3, 9))
+        import math
+        lo, hi = math.ceil(m.p[0].min()), math.floor(m.p[0].max())
+        xs = [Fr(rng.randrange(lo, hi + 1)) for _ in range(rng.randrange(1, 6))] + [Fr(hi)]
+        rf = run_finder(m, [(v,) for v in xs])
+        for dt in (np.int64, np.int32):
+            ri = run_finder(m, [(v,) for v in xs], dtype=dt)
+            n += 1
+            ctx.count(('line-int', m.p.tobytes(), tuple(map(int, xs)), dt.__name__), nontrivial=True)
+            bad = ri != rf or (ri[0] == 'ok' and not all(in_line(m, c, (v,)) for c, v in zip(ri[1], xs)))
+            if bad:
+                ctx.fail('finder:MeshLine1:integer-typed-points', f'the 1-D finder gives {ri} for the {dt.__name__} points {[int(v) for v in xs]} '
+                         f'but {rf} for the same points as float64', {'mesh_class': 'MeshLine1', 'p': m.p.tolist(), 't': m.t.tolist(),
+                                                                       'points': [int(v) for v in xs], 'dtype': dt.__name__, 'site': 'line-int'})
+                break
+    ctx.extra['restricted_trailing_integer_search'] = {'configurations': n}
+
+
 def replay(ctx, data):
     import skfem
     inp = data['input']
@@ -1001,8 +1144,37 @@ def replay(ctx, data):
         ctx.log('batch vs one-point-at-a-time: max abs difference', diff)
         if diff > 1e-9 * (1 + float(np.max(np.abs(ref)))):
             ctx.fail(data['key'], data['what'], inp)
+    elif site == 'line-int':
+        m = skfem.MeshLine1(np.array(inp['p']), np.array(inp['t']))
+        xs = [Fr(v) for v in inp['points']]
+        ri = run_finder(m, [(v,) for v in xs], dtype=np.dtype(inp['dtype']).type)
+        rf = run_finder(m, [(v,) for v in xs])
+        ctx.log('integer typed:', ri, ' float typed:', rf)
+        if ri != rf:
+            ctx.fail(data['key'], data['what'], inp)
+    elif site == 'probes-restricted':
+        m = getattr(skfem, inp['mesh_class'])(np.array(inp['p']), np.array(inp['t']))
+        full = skfem.Basis(m, make_elem(inp['element']))
+        x = np.array(inp['points'])
+        y = np.cos(1.0 + 0.37 * np.arange(full.N))
+        ref = full.probes(x) @ y
+        try:
+            bs = skfem.Basis(m, make_elem(inp['element']), elements=np.array(inp['elements']))
+            got = bs.probes(x) @ y
+            bad = float(np.max(np.abs(got - ref))) > 1e-11 * (1 + float(np.max(np.abs(ref))))
+            if not bad and 'x_shape' in inp:
+                x3 = x[:, :4].reshape(x.shape[0], 2, 2)
+                v3 = np.asarray(full.interpolator(y)(x3))
+                bad = v3.shape != tuple(full._base_tensor_order) + (2, 2)
+                ctx.log('interpolator with trailing axes returns shape', v3.shape)
+        except Exception as ex:      # noqa: BLE001
+            ctx.log('raised', type(ex).__name__, ex)
+            bad = True
+        if bad:
+            ctx.fail(data['key'], data['what'], inp)
     else:
         ctx.log('replay: re-running the search')
         search_finders(ctx)
         search_probes(ctx)
         search_probes_general(ctx)
+        search_probes_restricted(ctx)
